@@ -128,6 +128,7 @@ type FnCtx struct {
 	usedLemmas []string
 	sortWitness [][2]string
 	entryReach string
+	localCells []string // alloc terms of local variables that never escape
 	outerBlock *ssa.BasicBlock // caller block while executing inlined callee bodies
 	inlineStack []*ssa.Function
 	inlineRets []inlineRet
@@ -230,7 +231,7 @@ func (c *FnCtx) checkFull(kind, desc, guard, cond, assumeAfter string, pre []str
 		if i := strings.Index(k, ":"); i >= 0 {
 			k = k[:i]
 		}
-		if c.fc.NoSafety[k] {
+		if c.fc.NoSafety[k] || c.fc.NoSafety["all"] {
 			return
 		}
 	}
